@@ -433,8 +433,18 @@ def run_limiter(case) -> dict:
                 in_acquire = any("acquire" in n for n in names)
                 if in_acquire:
                     queued += 1
-                    if "held_fn" in names or "wait" in names[names.index(next(n for n in names if "acquire" in n)):]:
-                        probs.append(f"a task still queued for the thread limiter shows another task's worker-thread frames: {names}")
+                    # the task's own await chain, by hand: nothing else may be shown for a task that has no worker thread yet
+                    own, o = [], t.coro
+                    while o is not None:
+                        fr = getattr(o, "cr_frame", None) or getattr(o, "gi_frame", None)
+                        if fr is None:
+                            break
+                        own.append(fr)
+                        o = getattr(o, "cr_await", None) if hasattr(o, "cr_await") else getattr(o, "gi_yieldfrom", None)
+                    foreign = [f.funcname for f in st.frames if all(f.pyframe is not x for x in own)]
+                    if "held_fn" in names or "wait" in names[names.index(next(n for n in names if "acquire" in n)):] or foreign:
+                        probs.append(f"a task still queued for the thread limiter shows frames that are not on its own await chain "
+                                     f"(another thread's): {foreign or names}")
                 else:
                     busy += 1
                     if "held_fn" not in names:
@@ -469,6 +479,10 @@ class C14(PropCheck):
 
     def cases(self, rng, tier):
         out = []
+        # (first: while no idle worker threads cached by earlier Trio runs are around, the worker-thread lookup has only the
+        # threads of this scenario to choose from)
+        for cap, tasks in ((1, 3), (2, 5), (1, 2)):
+            out.append({"k": "limiter", "capacity": cap, "tasks": tasks})
         n = 40 if tier == "quick" else 400
         d = 2 if tier == "quick" else 3
         for i in range(n):
@@ -476,8 +490,6 @@ class C14(PropCheck):
         for plan in ("same", "cross", "remote"):
             for m in ((1, 2) if tier == "quick" else (1, 2, 3)):
                 out.append({"k": "two_runs", "plan": plan, "hops": m, "end_in_thread": (m + len(plan)) % 2 == 0})
-        for cap, tasks in ((1, 3), (2, 5), (1, 2)):
-            out.append({"k": "limiter", "capacity": cap, "tasks": tasks})
         for m in list(range(0, 4)) + [21, 22]:        # > 100 non-frame items on one stack: the loop guard must not fire
             out.append({"k": "hops", "hops": m})
         return out
